@@ -55,6 +55,7 @@ class SubstituteInterpretation(Interpretation):
         super().__init__("subs")
         self.subs = subs
         self.base_interpretation = base_interpretation
+        self.fresh = None  # fresh names of the node being rebuilt, if known
         assert isinstance(subs, tuple)
         assert all(isinstance(v, Funsor) for k, v in subs)
 
@@ -63,9 +64,15 @@ class SubstituteInterpretation(Interpretation):
         return self.base_interpretation.is_total
 
     def interpret(self, cls, *args):
+        node_fresh, self.fresh = self.fresh, None  # applies to this call only
         with self.base_interpretation:
             expr = cls(*args)
-            fresh_subs = tuple((k, v) for k, v in self.subs if k in expr.fresh)
+            # Only the names that are fresh in the node being rebuilt are
+            # substituted here. If the base interpretation evaluated the node,
+            # the fresh names of the result also include inputs introduced by
+            # values that were already substituted into the children.
+            fresh = expr.fresh if node_fresh is None else node_fresh
+            fresh_subs = tuple((k, v) for k, v in self.subs if k in fresh)
             if fresh_subs:
                 expr = instrument.debug_logged(expr.eager_subs)(fresh_subs)
             if instrument.PROFILE:
@@ -90,7 +97,10 @@ def substitute(expr, subs):
 
     env = interpreter.anf(expr, stop)
 
-    with SubstituteInterpretation(subs, interpreter.get_interpretation()):
+    subs_interpretation = SubstituteInterpretation(
+        subs, interpreter.get_interpretation()
+    )
+    with subs_interpretation:
         for key, value in env.items():
             args = tuple(
                 c if interpreter.is_atom(c) else env.get(c, c)
@@ -99,7 +109,11 @@ def substitute(expr, subs):
             if isinstance(value, (tuple, frozenset)):  # TODO absorb this into interpret
                 env[key] = type(value)(args)
             else:
-                env[key] = type(value)(*args)
+                subs_interpretation.fresh = value.fresh
+                try:
+                    env[key] = type(value)(*args)
+                finally:
+                    subs_interpretation.fresh = None
     return env[expr]
 
 
